@@ -450,11 +450,8 @@ def classify_known(scen, plan, key, text, out):
 # --------------------------------------------------------------------------
 # part C: interrupted blocking poll on a virtual clock (harness/c16_poll.c)
 # --------------------------------------------------------------------------
-POLL_KNOWN_KEY = "io_poll_eintr_retry_subtracts_elapsed_twice"
-POLL_KNOWN_TEXT = ("uv__io_poll (src/unix/linux.c update_timeout: real_timeout -= loop->time - base) never advances base, so from the "
-                   "second interrupted/event-less wake-up on the time since entry is subtracted again from the already reduced "
-                   "real_timeout: the poll returns before its timeout and uv_run(UV_RUN_ONCE) returns without the timer having "
-                   "fired; e.g. 200 ms timer, epoll_pwait interrupted after 50, 50, 50 ms: calls 200, 150, 50, return at 150 ms")
+# (the early wake-up io_poll_eintr_retry_subtracts_elapsed_twice was repaired by /repo c841fbc: a plain violation if it
+# returns; its replays stay in corpus/C16/poll.txt)
 
 
 def poll_cases(rng, thorough):
@@ -526,7 +523,8 @@ def poll_parse(line):
 
 
 def poll_monitor(case, line):
-    """None, or (key, text): key 'late' = the property is violated, POLL_KNOWN_KEY = the early wake-up"""
+    """None, or (key, text): 'late' = blocked beyond the timeout / timer late, 'early' = woke up before the timeout
+    without any event (uv_run(UV_RUN_ONCE) then returns with the due timer not fired)"""
     due, runs = poll_parse(line)
     if due is None or not runs or "end fired=1" not in line:
         if " H " in line:
@@ -543,8 +541,8 @@ def poll_monitor(case, line):
             for (t, now, ans) in ph["calls"]:
                 if g >= 0 and (t < 0 or t > g - (now - base)):
                     return ("late", "epoll_pwait was given %d ms after %d of %d ms had elapsed" % (t, now - base, g))
-            last = ph["calls"][-1][2]
-            if g > 0 and ph["blocked"] is not None and ph["blocked"] < g and last.startswith("i") and not r["async"]:
+            quiet = not any(a.startswith("e") for _, _, a in ph["calls"])
+            if g > 0 and ph["blocked"] is not None and ph["blocked"] < g and quiet and not r["async"]:
                 early = "uv__io_poll(%d) returned after %d ms without events (calls %s)" % (
                     g, ph["blocked"], ",".join("%d@%d" % (t, n - base) for t, n, _ in ph["calls"]))
         if r["fired"]:
@@ -553,8 +551,8 @@ def poll_monitor(case, line):
                 return ("late", "the %d ms timer fired at %d ms on the virtual clock" % (due, at))
             if now != at:
                 return ("late", "uv_now() was %d when the timer fired at %d" % (now, at))
-    if early and case.startswith("once"):
-        return (POLL_KNOWN_KEY, early + "; uv_run(UV_RUN_ONCE) returned before the timer was due")
+    if early:
+        return ("early", early + (": uv_run(UV_RUN_ONCE) returned before the timer was due" if case.startswith("once") else ""))
     return None
 
 
@@ -589,7 +587,7 @@ def report(chk, key, text, replay):
         if kk in _reported:
             return
         _reported.add(kk)
-        chk.violation("unlisted finding %s: %s" % (kk, KNOWN_TEXT.get(kk) or (POLL_KNOWN_TEXT if kk == POLL_KNOWN_KEY else text)), replay)
+        chk.violation("unlisted finding %s: %s" % (kk, KNOWN_TEXT.get(kk) or text), replay)
         return
     chk.violation("%s: %s" % (key, text), replay)
 
@@ -730,13 +728,10 @@ def main():
             chk.count("poll", c + "=>" + o)
             v = poll_monitor(c, o)
             if v is not None:
-                if v[0] == POLL_KNOWN_KEY:
-                    report(chk, v[0], v[1], {"kind": "monitor", "case": c, "impl": o[:1500], "known_key": POLL_KNOWN_KEY})
-                else:
-                    nlate += 1
-                    if nlate <= 3:
-                        chk.violation("poll: %s" % v[1], {"kind": "monitor", "obligation": "uv__io_poll timeout loop",
-                                                           "case": c, "impl": o[:1500]})
+                nlate += 1
+                if nlate <= 3:
+                    chk.violation("poll: %s" % v[1], {"kind": "monitor", "obligation": "uv__io_poll timeout loop",
+                                                       "case": c, "impl": o[:1500]})
             for m_case, m_impl in poll_model_cases(c, o):
                 mc.append(m_case)
                 mi.append(m_impl)
@@ -757,7 +752,7 @@ def main():
                                       (m_impl, mm, ("; " + v[1]) if v else ""),
                                       {"kind": "correspondence", "obligation": "Model/Faults.v io_poll = uv__io_poll timeout loop",
                                        "case": c, "impl": o[:1500], "model_case": m_case, "model": m_out},
-                                      found_input=bool(v and v[0] == "late"))
+                                      found_input=v is not None)
         chk.corr("poll: scripted EINTR / event / timeout answers of a blocking epoll_pwait on a virtual clock", len(pcases))
         chk.cov["poll_phases_compared_with_model"] = len(mc)
         chk.sample({"poll_case": pcases[min(20, len(pcases) - 1)], "impl": pouts[min(20, len(pouts) - 1)][:300]})
